@@ -26,6 +26,8 @@ func init() {
 			{Name: "readdir-lists-whiteouts", File: "artifact/image/layerscanning/image/layer.go", Old: "		if child.isWhiteout {\n			continue\n		}\n", New: "", Rule: "D3-whiteouts-invisible", Site: "ReadDir"},
 			{Name: "layers-oldest-first", File: "artifact/image/layerscanning/image/image.go", Old: "	for i := len(chainLayers) - 1; i >= 0; i-- {\n		chainLayer := chainLayers[i]\n\n		// If the layer is empty", New: "	for i := 0; i < len(chainLayers); i++ {\n		chainLayer := chainLayers[i]\n\n		// If the layer is empty", Rule: "D1-newest-wins", Site: "FromV1Image"},
 			{Name: "whiteouts-filtered-by-requirer", File: "artifact/image/layerscanning/image/image.go", Old: "		// realFilePath is where the file will be written to disk.", New: "		if isWhiteout && !img.config.Requirer.FileRequired(virtualPath, header.FileInfo()) {\n			continue\n		}\n		// realFilePath is where the file will be written to disk.", Rule: "D5-omissions", Site: "fillChainLayersWithFilesFromTar"},
+			{Name: "parents-not-populated-for-directories", File: "artifact/image/layerscanning/image/image.go", Old: "		populateEmptyDirectoryNodes(virtualPath, layerDir, dirPath, chainLayersToFill)\n", New: "		if header.Typeflag != tar.TypeDir {\n			populateEmptyDirectoryNodes(virtualPath, layerDir, dirPath, chainLayersToFill)\n		}\n", Rule: "D8-parents-populated", Site: "fillChainLayersWithFilesFromTar"},
+			{Name: "implicit-dirs-inserted-unguarded", File: "artifact/image/layerscanning/image/image.go", Old: "		fillChainLayersWithFileNode(chainLayersToFill, node)\n", New: "		for _, chainLayer := range chainLayersToFill {\n			if chainLayer.fileNodeTree.Get(runningDir) == nil {\n				_ = chainLayer.fileNodeTree.Insert(runningDir, node)\n			}\n		}\n", Rule: "D7-who-may-insert", Site: "populateEmptyDirectoryNodes"},
 		},
 	})
 }
